@@ -111,7 +111,8 @@ pub open spec fn sum_mut_lens(sols: Seq<Solution>) -> int decreases sols.len() {
     pr.item('type Edge')
     pr.item('struct Predicate')
     pr.spec("""
-impl Predicate { pub open spec fn starts(&self) -> Seq<u16> { self.nodes@.map_values(|n: Node| n.edge_start) } }
+impl Predicate { pub open spec fn starts(&self) -> Seq<u16> { self.nodes@.map_values(|n: Node| n.edge_start) }
+    pub open spec fn addrs(&self) -> Seq<Seq<u8>> { self.nodes@.map_values(|n: Node| n.program_address.0@) } }
 """)
     pr.impl('impl Predicate', [('const', 'MAX_NODES'), ('const', 'MAX_EDGES'),
         F('node_edges', ensures="""match crate::node_edges_spec(self.starts(), self.edges@, node_ix as int) {
